@@ -22,8 +22,12 @@ def main():
     ap.add_argument('--prop', default='')
     ap.add_argument('--tests', action='store_true')
     ap.add_argument('-v', action='store_true')
+    ap.add_argument('--seeds', action='store_true', help='also apply every /verif/seeded/*/patch.diff and expect its property to fire')
+    ap.add_argument('--only-seeds', action='store_true')
     a = ap.parse_args()
     muts = [m for m in load_mutants() if a.k in m['id'] and (not a.prop or a.prop in m['props'])]
+    if a.only_seeds:
+        muts = []; a.seeds = True
     scratch = tempfile.mkdtemp(prefix='tfmut_')
     repo = os.path.join(scratch, 'repo'); sverif = os.path.join(scratch, 'verif')
     os.makedirs(sverif)
@@ -69,6 +73,29 @@ def main():
                 fails += 1
             for fp, src in saved.items():
                 open(fp, 'w').write(src)
+        if a.seeds:
+            import glob
+            for mj in sorted(glob.glob(os.path.join(VERIF, 'seeded', '*', 'meta.json'))):
+                meta = json.load(open(mj))
+                if a.k and a.k not in meta['id']:
+                    continue
+                pf = os.path.join(os.path.dirname(mj), 'patch.diff')
+                ap1 = subprocess.run(['git', 'apply', pf], cwd=repo, capture_output=True, text=True)
+                if ap1.returncode != 0:
+                    print(f"FAIL seed {meta['id']}: patch does not apply: {ap1.stderr[:300]}"); fails += 1; continue
+                prop = meta['breaks']
+                p = subprocess.run([os.path.join(VERIF, 'bin/tfcheck'), '-prop', prop, '-repo', repo, '-verif', sverif], env=ENV, capture_output=True, text=True)
+                out = p.stdout + p.stderr
+                want = meta.get('detected_by', {}).get('expect', '')
+                caught = p.returncode == 1 and 'VIOLATION property=' + prop in out
+                if meta.get('detected_by', {}).get('caught', True):
+                    good = caught and all(e in out for e in want.split('&&') if e)
+                else:
+                    good = not caught  # recorded as not detected; report when that changes
+                print(('ok   ' if good else 'FAIL ') + 'seed ' + meta['id'] + (' (fires)' if caught else ' (silent)'))
+                if not good:
+                    print(out[-1200:]); fails += 1
+                subprocess.check_call(['git', 'apply', '-R', pf], cwd=repo)
     finally:
         shutil.rmtree(scratch, ignore_errors=True)
     print(f"{len(muts)} mutants, {fails} failures")
